@@ -302,7 +302,16 @@ def write_evidence(ctx, n_viol):
         "broken": [b["obligation"] for b in ctx.broken],
         "n_disagreements": len(ctx.disagreements),
     }
-    cov.update(ctx.extra)
+    # keys the evidence schema types (EVIDENCE.schema.json) keep their type: a property-specific extra of another type is
+    # stored under "<key>_detail" instead of overwriting them
+    typed = {"evaluations": int, "distinct_nontrivial": int, "rule": str, "samples": list, "states": int, "transitions": int,
+             "traces_validated_against_impl": int, "obligations": int, "discharged": int, "checker_cmd": str,
+             "trusted_base": list, "programs": int, "disagreements_checked": int, "explanation": str, "exhaustive": bool}
+    for k, v in ctx.extra.items():
+        if k in typed and (not isinstance(v, typed[k]) or (typed[k] is int and isinstance(v, bool))):
+            cov[k + "_detail"] = v
+        else:
+            cov[k] = v
     ev = {
         "property_id": ctx.prop, "tier": ctx.tier, "seed": ctx.seed, "level": "proof",
         "coverage": cov,
